@@ -635,16 +635,98 @@ def t_linear(b, n, rng):
     b.info.update(template="linear", cls=cls, f=A, x0=x0, xn=x, main_f=A)
 
 
+def t_agm(b, n, rng):
+    """Accelerated gradient method (momentum) on a smooth (strongly) convex function."""
+    mu, L = _mu_L(rng)
+    b.pep()
+    if rng.random() < 0.5:
+        f = b.func("SmoothConvexFunction", L=L)
+        cls = "SmoothConvexFunction"
+    else:
+        f = b.func("SmoothStronglyConvexFunction", mu=mu, L=L)
+        cls = "SmoothStronglyConvexFunction"
+    xs, gs, fs = b.stationary(f)
+    x0 = b.point()
+    x, y = x0, x0
+    for k in range(max(n, 1)):
+        g = b.gradient(f, y)
+        xn = b.plin([(y, 1.0), (g, -r2(1.0 / L))])
+        beta = r2(k / (k + 3.0))
+        y = b.plin([(xn, 1.0 + beta), (x, -beta)]) if beta else xn
+        x = xn
+    vn = b.value(f, x)
+    b.bound(b.dist2(x0, xs), 1.0, how="initial")
+    b.metric(b.elin([(vn, 1.0), (fs, -1.0)]))
+    b.info.update(template="agm", cls=cls, f=f, xs=xs, x0=x0, xn=x, main_f=f)
+
+
+def t_drs(b, n, rng):
+    """Douglas-Rachford splitting on two functions, two trajectories (contraction of the governing sequence)."""
+    mu, L = _mu_L(rng)
+    b.pep()
+    f1 = b.func("SmoothStronglyConvexFunction", mu=mu, L=L)
+    f2 = b.func(rng.choice(["ConvexFunction", "ConvexIndicatorFunction"]))
+    alpha = r2(0.5 + rng.random())
+    theta = r2(0.5 + rng.random())
+    w0, v0 = b.point(), b.point()
+    w, v = w0, v0
+    for k in range(max(n, 1)):
+        for which in (0, 1):
+            z = w if which == 0 else v
+            x = b.step("proximal_step", 3, x0="@" + z, f="@" + f2, gamma=alpha)[0]
+            r = b.plin([(x, 2.0), (z, -1.0)])
+            y = b.step("proximal_step", 3, x0="@" + r, f="@" + f1, gamma=alpha)[0]
+            znew = b.plin([(z, 1.0), (y, theta), (x, -theta)])
+            if which == 0:
+                w = znew
+            else:
+                v = znew
+    b.bound(b.dist2(w0, v0), 1.0, how="initial")
+    b.metric(b.dist2(w, v))
+    b.info.update(template="drs", cls="two-functions", f=f1, h=f2, x0=w0, xn=w, main_f=f1)
+
+
+def t_tos(b, n, rng):
+    """Three-operator splitting on operators (cocoercive + two monotone), two trajectories."""
+    beta = r2(0.5 + rng.random())
+    b.pep()
+    A = b.func("MonotoneOperator")
+    Bo = b.func("CocoerciveOperator", beta=beta)
+    C = b.func(rng.choice(["MonotoneOperator", "StronglyMonotoneOperator"]))
+    if b.ops[-1]["cls"] == "StronglyMonotoneOperator":
+        b.ops[-1]["params"] = {"mu": 0.2}
+    alpha = r2(beta * (0.5 + rng.random()))
+    theta = 1.0
+    w0, v0 = b.point(), b.point()
+    w, v = w0, v0
+    for k in range(max(n, 1)):
+        for which in (0, 1):
+            z = w if which == 0 else v
+            x = b.step("proximal_step", 3, x0="@" + z, f="@" + C, gamma=alpha)[0]
+            gx = b.gradient(Bo, x)
+            r = b.plin([(x, 2.0), (z, -1.0), (gx, -alpha)])
+            y = b.step("proximal_step", 3, x0="@" + r, f="@" + A, gamma=alpha)[0]
+            znew = b.plin([(z, 1.0), (y, theta), (x, -theta)])
+            if which == 0:
+                w = znew
+            else:
+                v = znew
+    b.bound(b.dist2(w0, v0), 1.0, how="initial")
+    b.metric(b.dist2(w, v))
+    b.info.update(template="tos", cls="three-operators", f=Bo, x0=w0, xn=w, main_f=Bo)
+
+
 TEMPLATES = {
     "gd": t_gd, "gd_qg": t_gd_qg, "subgradient": t_subgradient, "ppa": t_ppa, "pgd": t_pgd,
     "operator": t_operator, "halpern": t_halpern, "fw": t_fw, "linesearch": t_linesearch,
     "inexact_gd": t_inexact_gd, "inexact_prox": t_inexact_prox, "eps_subgradient": t_eps_subgradient,
     "bregman": t_bregman, "bregman_prox": t_bregman_prox, "bcd": t_bcd, "linear": t_linear,
+    "agm": t_agm, "drs": t_drs, "tos": t_tos,
 }
 
 DEFAULT_WEIGHTS = {"gd": 4, "gd_qg": 2, "subgradient": 1, "ppa": 2, "pgd": 3, "operator": 3, "halpern": 1, "fw": 1,
                    "linesearch": 1, "inexact_gd": 1, "inexact_prox": 1, "eps_subgradient": 1, "bregman": 1,
-                   "bregman_prox": 1, "bcd": 2, "linear": 2}
+                   "bregman_prox": 1, "bcd": 2, "linear": 2, "agm": 1, "drs": 1, "tos": 1}
 
 
 # --------------------------------------------------------------------------------------------------
